@@ -48,7 +48,8 @@ impl ChunkSpec {
 impl CConfig {
     pub fn build(&self) -> CompactorConfig {
         CompactorConfig {
-            l0_merge_threshold: 2 + (self.l0_threshold % 3) as usize,
+            // 2, 3, 4 and (index 3) 1: a threshold of one makes every lone L0 chunk a candidate group
+            l0_merge_threshold: [2usize, 3, 4, 1][self.l0_threshold as usize % 4],
             l0_target_size: 1 << 20,
             l1_target_size: TARGETS[self.l1_target as usize % 4],
             l2_target_size: TARGETS[self.l2_target as usize % 4],
@@ -228,5 +229,5 @@ pub fn chunk_spec() -> impl Strategy<Value = ChunkSpec> {
 }
 
 pub fn cconfig() -> impl Strategy<Value = CConfig> {
-    (0u8..3, 0u8..4, 0u8..4, 0u8..4).prop_map(|(l0_threshold, l1_target, l2_target, max_levels)| CConfig { l0_threshold, l1_target, l2_target, max_levels })
+    (0u8..4, 0u8..4, 0u8..4, 0u8..4).prop_map(|(l0_threshold, l1_target, l2_target, max_levels)| CConfig { l0_threshold, l1_target, l2_target, max_levels })
 }
